@@ -65,7 +65,8 @@ CHECKS = {
                 'guarded. Four genuine deviations of publish_* are recorded as known findings (the pinned suite asserts them). '
                 'Equality of tracked and real state on concrete traces is not observed. publish_proof compares the conclusion with the HEAD of the claim list and drops exactly it (claim-queue); the generator\'s freshness judgement implies the documented one (shared with C02).'
                 ' arity-enforced: operands are never compared with the tracked stack through zip (truncation accepts a short stack). The two substitution tables are composed (the tracker computes Instantiate results with the generator\'s substitution).'
-                " 'Modulo the numbering of symbols' is sound only for ONE injective symbol table for the three streams: C03's one-symbol-table rules are composed in (also when the table lives on a helper object that must not be re-created at a phase change).",
+                " 'Modulo the numbering of symbols' is sound only for ONE injective symbol table for the three streams: C03's one-symbol-table rules are composed in (also when the table lives on a helper object that must not be re-created at a phase change)."
+                ' Pop / Save / Publish act on the top: the tracker accepts only when the named term equals stack[-1]; each publish call is accepted only in its phase; phase changes go gamma -> claim -> proof and every override passes them on.',
         'note': 'Trusted: python ast, rustc MIR. Known findings in known_findings.json (publish_* leave the term on the tracked stack; claims not queued).',
         'design_ref': 'DESIGN.md section 3, C04',
     },
@@ -76,7 +77,8 @@ CHECKS = {
                 'replays the call which writes that opcode, reading distinct stack slots at the positions the tracker binds; Publish is '
                 'replayed per phase; the decode loop ends only at end of input; unknown bytes raise. Five genuine gaps are recorded as '
                 'known findings. Equality of the replayed state on concrete modules is not observed. writer-lossless: in every encoding case each argument of the call is written, tied to a stack slot by the tracker, or forced to its default by the condition selecting the case (24 cases).'
-                ' The opcode dispatched on is Instruction(<the byte the loop condition read>), unchanged; the k-th operand read is handed to the parameter the k-th written operand comes from (reader-order: a swap of two equally shaped operands replays another term).',
+                ' The opcode dispatched on is Instruction(<the byte the loop condition read>), unchanged; the k-th operand read is handed to the parameter the k-th written operand comes from (reader-order: a swap of two equally shaped operands replays another term).'
+                ' Reader slots are strict (a parameter the tracker compares with stack[-k] must be that slot); Instantiate takes the n entries directly below the top keyed by the n ids read; Load replays memory[<operand>]; the claim published / the theorem compared is the top; the cursor starts at 0; the list reader returns what it read.',
         'note': 'Trusted: python ast. Known findings: no decoder branch for Quantifier/Generalization, constraint element types, Publish in gamma/proof phases.',
         'design_ref': 'DESIGN.md section 3, C14',
     },
@@ -105,7 +107,8 @@ CHECKS = {
                 'yields exactly the documented conclusion and has passed a raising destructuring of the premise as an implication and the '
                 'side condition of the rule, so inapplicable premises are refused on all paths (not on sampled ones); all 15 overrides in '
                 'the interpreter classes pass the same arguments on exactly once and return that value; Pattern.extract/unwrap raise on a '
-                'non-implication; ProofExp repeats the antecedent check. The freshness judgement is C06. The conclusion of schema instantiation is `conclusion.instantiate(delta)`, so instantiate / apply_esubst / apply_ssubst of every pattern class are compared with the textbook table here too (C11\'s Python half), including `metavars().isdisjoint(delta)` shortcuts read as \'child unchanged\'.',
+                'non-implication; ProofExp repeats the antecedent check. The freshness judgement is C06. The conclusion of schema instantiation is `conclusion.instantiate(delta)`, so instantiate / apply_esubst / apply_ssubst of every pattern class are compared with the textbook table here too (C11\'s Python half), including `metavars().isdisjoint(delta)` shortcuts read as \'child unchanged\'.'
+                " The freshness judgement is exact: per constructor it answers fresh whenever the documented judgement does (with C06's soundness: equality).",
         'note': 'Trusted: python ast; assert statements enabled; evar_is_free soundness is C06.',
         'design_ref': 'DESIGN.md section 3, C07',
     },
@@ -119,7 +122,8 @@ CHECKS = {
                 'sibling empty-map guards agree. Joint behaviour on concrete expressions is not observed. Interpreter.pattern interprets the operands of each constructor in the order of the stack slots the tracking interpreters check (walk-order, 8 arms); the tracking interpreters compare terms with ==, never by identity. Every interpreter class that refines a call through super() calls the same method with its own arguments (64 delegations); no interpreter class keeps class-level mutable state mutated through instances.'
                 ' The Instantiate operand pairing and the memoiser\'s slot budget (shared with C02) are part of \'the serialising interpreter means the same\'.'
                 " gamma / claims are fed to every interpreter through the loop shape C03 requires (a flattening generator must yield every axiom once, in order), and the decorator wrapping the pretty interpreter's steps - wherever it is defined - calls the wrapped step with the received arguments and returns its result."
-                ' With the arguments Interpreter.pattern passes, the conclusion-only interpreter rebuilds every field of the pattern walked from the same-named field (walk-order/rebuilds-the-pattern: exchanged positive / negative lists publish another pattern).',
+                ' With the arguments Interpreter.pattern passes, the conclusion-only interpreter rebuilds every field of the pattern walked from the same-named field (walk-order/rebuilds-the-pattern: exchanged positive / negative lists publish another pattern).'
+                " Each primitive's thunk hands BasicInterpreter's parameters the same-named premises and performs the call it advertises; constructors forward their parameters by name; the instantiation optimiser forwards exactly once for a non-empty map.",
         'note': 'Trusted: python ast; the listed construction sites were confirmed by reading.',
         'design_ref': 'DESIGN.md section 3, C08',
     },
@@ -133,7 +137,8 @@ CHECKS = {
                 'in its expansion and instantiates with one merged map over the untouched body. By induction over patterns this yields '
                 'the per-constructor laws for all inputs. The composition law as an equation over all maps is not evaluated.'
                 ' Instantiate.metavars() (shared with C12) decides which entries of delta are merged.'
-                ' The Python half of the C06 soundness table is composed in: the algebra is stated on evar_is_free and its siblings, so an unsound freshness judgement breaks the fresh-variable identity. Methods of the pattern classes outside the pattern API are inlined at their call sites.',
+                ' The Python half of the C06 soundness table is composed in: the algebra is stated on evar_is_free and its siblings, so an unsound freshness judgement breaks the fresh-variable identity. Methods of the pattern classes outside the pattern API are inlined at their call sites.'
+                ' Besides `k not in self.inst`, the only filter allowed on the entries of delta merged by Instantiate.instantiate is that k occurs in the body.',
         'note': 'Trusted: spec/substitution.py; well-formed heads of pending substitutions (C01 S2); python ast, rustc MIR.',
         'design_ref': 'DESIGN.md section 3, C11',
     },
@@ -156,7 +161,8 @@ CHECKS = {
                 'ever tested by truthiness where its type has falsy inhabitants (empty dict, empty tuple, 0): types come from the resolved '
                 'callee\'s annotation; plus the shape of match_single (both sides destructured per constructor, bound metavariables '
                 'compared not rebound, substitution threaded, notation expanded first). Decides that the empty substitution / id 0 is '
-                'never taken for failure; soundness/completeness as equations are not evaluated. `match(equations)` hands every equation to match_single with the accumulated substitution and keeps the result; no equation is skipped and a failure fails the system. The destructuring helpers match_single relies on (unwrap, X.deconstruct) expand every notation level; no function of pattern.py writes a module-level table (matching is a function of its arguments). On every successful path for a constructor each of its components is matched against or compared with the same component of the instance (all-components-matched).',
+                'never taken for failure; soundness/completeness as equations are not evaluated. `match(equations)` hands every equation to match_single with the accumulated substitution and keeps the result; no equation is skipped and a failure fails the system. The destructuring helpers match_single relies on (unwrap, X.deconstruct) expand every notation level; no function of pattern.py writes a module-level table (matching is a function of its arguments). On every successful path for a constructor each of its components is matched against or compared with the same component of the instance (all-components-matched).'
+                ' A new binding is made only under can_be_replaced_by(instance); Notation.matches puts the definition on the pattern side and returns match[i] or MetaVar(i) for every i below the arity.',
         'note': 'Trusted: return annotations; two triaged intended emptiness tests.',
         'design_ref': 'DESIGN.md section 3, C13',
     },
@@ -169,7 +175,8 @@ CHECKS = {
                 'publishing; the serializer has one symbol table (created in __init__, ids len(table) under a not-in guard, never '
                 'shrunk) shared by the three files through one serializer; all 26 writes are unmasked bytes([...]) so ids above 255 '
                 'raise. The emitted files are not decoded and compared. A write through a byte-rendering helper of the repository counts as bounded only if the helper is `bytes(<its parameter>)` (a masking helper is a violation); `table.setdefault(name, len(table))` is read as the lookup-or-assign idiom. The transformer base forwards every pattern-construction call (evar .. instantiate_pattern) to the same method of the wrapped interpreter, once, with the same arguments.'
-                ' What is published is the declared pattern itself: Interpreter.pattern rebuilds every field from the same-named field (shared with C08). The symbol table may live on an object the serializer keeps, which must then be created once per serializer.',
+                ' What is published is the declared pattern itself: Interpreter.pattern rebuilds every field from the same-named field (shared with C08). The symbol table may live on an object the serializer keeps, which must then be created once per serializer.'
+                ' add_axiom / add_claim / add_proof_expression append what is added exactly when it is new; the memoiser loads a pattern found in memory exactly once.',
         'note': 'Trusted: python ast; the MAY_PUBLISH table confirmed by reading.',
         'design_ref': 'DESIGN.md section 3, C03',
     },
@@ -195,7 +202,8 @@ CHECKS = {
                 'Z placement and whitespace layouts are not decided. Labels registered from `text.split(sep)` with an explicit separator must filter empty tokens (the empty list `( )` is legal); where numbers past the label list are resolved (translate.exec_proof) every Z saves and remembers the top unconditionally and number n reloads slot n - len(labels) - 1 (shared with C16). A regular expression that cuts the proof into steps must repeat the high-digit class U-Y without bound before one A-T (read with re\'s parser); hash() / id() is never used as the identity of a term outside __hash__.'
                 ' The hypothesis numbering is found in converter helpers and in comprehension form; the number->label table extended with a proof\'s labels is created per proof (label-table-fresh); a decoder written with zip over a place-value table needs a table that reaches 10^6. The digit weights are decided by induction-variable analysis of the decoding loop (constants, pow(5, counter), running products); the set that selects the mandatory hypotheses is <statement>.get_metavariables(), and numbering in the order of another collection of the converter is a violation.'
                 ' The decoded number is exactly ls[last letter] plus the weighted high digits (also when the decoder is written in place in the loop over the letters); the letter buffer is emptied exactly on the iterations that close a number; the listed labels continue at len(table) + 1 and advance by one per label.'
-                ' A character-scanning label loop hands a label on only at `<letter>.isspace()`; the list of steps given to Proof(..) is made for that proof (steps-fresh-per-proof); digit tables and the decoder may live on an object.',
+                ' A character-scanning label loop hands a label on only at `<letter>.isspace()`; the list of steps given to Proof(..) is made for that proof (steps-fresh-per-proof); digit tables and the decoder may live on an object.'
+                ' Every token is recorded (one number per closing letter, one marker per Z with an empty buffer); the three scanning loops of the label list are positioned after `(`, at the first non-blank and at `)` (linear forms), the returned offset is the position after `)`.',
         'note': 'Trusted: python ast; _floating_patterns is appended in database order.',
         'design_ref': 'DESIGN.md section 3, C15',
     },
@@ -226,7 +234,8 @@ CHECKS = {
                 'converter\'s images of terms, notations and axioms, nor acceptance of any database (run-time data); proofs using other '
                 'proof rules are outside the stated fragment (reported as advisory). The numbering of the target\'s mandatory hypotheses and the label-list tokens are checked with C15\'s rules (the replay resolves the letters through them). get_delta adds exactly one entry per metavariable label on every path; every Axiom / Lemma the converter builds takes its `metavars` from the statement\'s variables, never from the metavariables of the converted pattern (the assumption of the stack rule, checked at its 5 construction sites).'
                 ' Rules with antecedents unite their own metavariables with those of every antecedent (floats-from-statement/union), read through converter helpers. The step numbers are decoded with C15\'s digit tables and digit order; the n-ary application of an undeclared constructor is curried over its arguments front to back (curried-in-argument-order); main() constructs the module with the declared axioms and the patterns of all lemmas as claims.'
-                ' Essential hypotheses of an axiom are set aside top-first, remembered as (name, proof) of the very stack top, and discharged in the reverse order by load + modus ponens (antecedent-discharge); a label no branch claims may not be passed over silently. The listed labels are numbered consecutively after the hypotheses (shared with C15).',
+                ' Essential hypotheses of an axiom are set aside top-first, remembered as (name, proof) of the very stack top, and discharged in the reverse order by load + modus ponens (antecedent-discharge); a label no branch claims may not be passed over silently. The listed labels are numbered consecutively after the hypotheses (shared with C15).'
+                " Every term handed to a tracked call in the replay is the stack slot the tracker compares it with (tracker-slots); convert_to_implication puts the first antecedent outermost; the converter's Z marker is the constant exec_proof tests.",
         'note': 'Trusted: tracker effects (decided under C04), prelude statements in the benchmark databases, assumption that the '
                 'mandatory floats of a non-prelude label are get_metavars_in_order(label) and its essentials are the antecedents.',
         'design_ref': 'DESIGN.md section 3, C16',
@@ -246,7 +255,8 @@ CHECKS = {
                 'are not decided. A `$d` over n variables is recorded as all n(n-1)/2 pairs (the loop headers are evaluated over four abstract variables); the parse transformer, which remembers declared variables, is created per parse and never at import time. Every node class reports the variables of all its term- or statement-valued children (no skipped kinds) - the slicer declares what get_metavariables reports; an optional field with a falsy inhabitant (proof: str | None) is never tested by truthiness in the printer / slicer / parser.'
                 ' The constant and variable scans recurse into nested blocks; `$v` is emitted only when the variable set is non-empty (grammar `$v token+`); a slice written as one tuple display is read as the equivalent appends. Every labelled statement is entered into the container of cut antecedents on every path of the scanning loop, whether or not a slice is emitted for it.'
                 ' A set iteration in the slicer is order-free only if all it produces in order is a run of `$d` statements (they commute), whatever its spelling; a `$d` restriction is emitted exactly under `pair <= declared variables`.'
-                " Every antecedent component a lemma block is taken apart into reaches both the lemma's own slice and the axiom registered for later slices (sibling agreement).",
+                " Every antecedent component a lemma block is taken apart into reaches both the lemma's own slice and the axiom registered for later slices (sibling agreement)."
+                ' The small functions the slicer is built from are decided on the values they return (labels between the parentheses, block = antecedents + lemma, registered axiom, notation axiom of a constructor, constant scan); arguments are not exchanged (arguments-by-name); what is needed is never passed over by the emitting pass.',
         'note': 'Trusted: python ast; the grammar is read from the `syntax` constant of metamath/parser.py.',
         'design_ref': 'DESIGN.md section 3, C17',
     },
